@@ -279,6 +279,7 @@ def run(rep: Report, tier: str) -> None:
     funnel(P, rep)
     call_scoped_class_state(P, rep)
     own_compatibility_symmetric(P, rep, list(types), rev)
+    multi_branch_result_type(P, rep, list(types), rev)
     # ---- R11.6 purity -----------------------------------------------------------------------------------
     purity(P, rep)
 
@@ -447,6 +448,52 @@ def own_compatibility_symmetric(P: Program, rep: Report, types: List[ClassVal], 
                             f"{f.qualname}({rev[a]}, {rev[b]}) is {table[(a, b)]} but ({rev[b]}, {rev[a]}) is {table[(b, a)]} ({len(asym) // 2} pair(s)): whether the operator accepts two "
                             f"operand types depends on the order they are written in, although having a common admitted type does not"))
     rep.floor("R11.8 own compatibility functions", n, 1)
+
+
+def multi_branch_result_type(P: Program, rep: Report, types: List[ClassVal], rev: Dict[ClassVal, str]) -> None:
+    """R11.9  case ... when ... then ... else at component level takes the common type of ALL its branches: Case.validate is evaluated for
+    three branch types in every order.  Acceptance and result type must not depend on the order of the branches (the common type of
+    a set of types), and must equal folding the untyped promotion over the branches in any order."""
+    from sa import structmodel as sm
+    from sa.e6 import Interp, Raised, Unmodelled
+    import itertools
+    rep.rule("R11.9", "case at component level: acceptance and result type are the same for every order of the branch types (three branches, all permutations, evaluated)")
+    f = P.func("vtlengine.Operators.Conditional.Case.validate")
+    M = sm.Model(P)
+    Bool = ClassVal(f"{DT}.Boolean")
+
+    def comp(t: ClassVal, i: int) -> Any:
+        return sm.MComp(f"Me_{i}", M.roles["MEASURE"], t, True)
+
+    def tp(o: Any) -> Any:
+        return ClassVal("vtlengine.Model.DataComponent") if isinstance(o, sm.MComp) else ClassVal("vtlengine.Model.Scalar") if getattr(o, "_cls", "") == "Scalar" else type(o)
+    ext = {"VirtualCounter._new_ds_name": lambda: "__DS__", "VirtualCounter._new_dc_name": lambda: "__DC__", "type": tp, "map": lambda fn, it: [fn(x) for x in it],
+           "isinstance": sm._isinstance, "DataComponent": lambda **kw: sm.MComp(kw["name"], kw.get("role"), kw.get("data_type"), kw.get("nullable", True))}
+    names = ("Integer", "Number", "String", "Boolean", "Date", "TimePeriod", "TimeInterval", "Null")
+    pool = [t for t in types if t.short in names]
+    n = 0
+    shown = 0
+    for trio in itertools.combinations(pool, 3):
+        outs = {}
+        for perm in itertools.permutations(trio):
+            conds = [comp(Bool, 10), comp(Bool, 11)]
+            try:
+                r = Interp(P, externals=ext).call(f, {"conditions": conds, "thenOps": [comp(perm[0], 0), comp(perm[1], 1)], "elseOp": comp(perm[2], 2)},
+                                                  bound_cls=ClassVal("vtlengine.Operators.Conditional.Case"))
+                outs[perm] = ("ok", getattr(r, "data_type", None))
+            except Raised as e:
+                outs[perm] = ("raise", getattr(e.exc, "code", None))
+            except Unmodelled as e:
+                raise AnalysisError(f"R11.9: Case.validate outside the evaluator's language: {e}")
+        n += 1
+        rep.instance("R11.9", "case/" + ",".join(rev[t] for t in trio), nontrivial=True)
+        if len(set(outs.values())) > 1 and shown < 5:
+            shown += 1
+            (p1, o1), (p2, o2) = next(((a, oa), (b, ob)) for a, oa in outs.items() for b, ob in outs.items() if oa != ob)
+            rep.add(Finding("R11.9", "R11.9/case/" + ",".join(rev[t] for t in trio), f.module.rel, f.node.lineno, f.qualname,
+                            f"case with branch types {[rev[t] for t in p1]} gives {o1[0]} {rev.get(o1[1], o1[1])}, with {[rev[t] for t in p2]} gives {o2[0]} {rev.get(o2[1], o2[1])}: "
+                            f"the result type of a case is the common type of all its branches and cannot depend on the order they are written in"))
+    rep.floor("R11.9 branch-type triples", n, 40)
 
 
 def call_scoped_class_state(P: Program, rep: Report) -> None:
